@@ -10,11 +10,11 @@ package controller
 
 //@ func (*DefaultFanController).findClosestDistinctTarget
 //@   params (f, target)
-//@   props C12
+//@   props C12 C07
 //@   requires mapInv(f) && util.inInt32(target)
 //@   ensures[C12.nearest C01 C05] nearestIn(distinct(f), result, target)
 //@   ensures[C12.exact C01 C05]   (forall k :: 0 <= k && k < len(distinct(f)) && distinct(f)[k] == target ==> result == target)
-//@   ensures[C05.fn] result == closestOf(target, distinct(f))
+//@   ensures[C05.fn C07] result == closestOf(target, distinct(f))
 //@   modifies nothing
 
 //@ func (*DefaultFanController).applyPwmMapping
@@ -32,12 +32,13 @@ package controller
 //@ ghost var setOK gmap[int]bool
 //@ func (*DefaultFanController).setPwm
 //@   params (f, target)
-//@   props C12
+//@   props C12 C07
 //@   ghostret setOK[f] := err == nil
 //@   ensures setOK[f] == (err == nil)
 //@   requires fans.fanWF(f.fan)
 //@   requires[regulation -C15 -C16] mapInv(f) && util.inInt32(target)
 //@   atcall[C12.write C01 C05] SetPwm: exists s :: nearestIn(distinct(f), s, target) && pwm == f.pwmMap[s]
+//@   atcall[C07.write] SetPwm: pwm == f.pwmMap[closestOf(target, distinct(f))]
 //@   ensures[last] f.lastSetPwm != nil && *f.lastSetPwm == target
 //@   ensures[C12.others C01 C05] forall o int :: o != ref(f.fan) ==> pwmWrites[o] == old(pwmWrites)[o] && lastPwm[o] == old(lastPwm)[o]
 //@   ensures[C05.device] f.fan is *fans.HwMonFan && fans.hwPwmPath(f.fan.(*fans.HwMonFan)) in faithful && (pwmWrites[f.fan] == old(pwmWrites)[f.fan] ==> err == nil) && (pwmWrites[f.fan] != old(pwmWrites)[f.fan] ==> !lastPwmErr[f.fan]) && (pwmWrites[f.fan] == old(pwmWrites)[f.fan] ==> supportsResult[fans.FeaturePwmSensor] && !lastReadFailed) && err == nil ==> fileInt[fans.hwPwmPath(f.fan.(*fans.HwMonFan))] == f.pwmMap[closestOf(target, distinct(f))]
